@@ -504,3 +504,45 @@ M2('c02-405-list-copy-of-nothing', 'C02', 'R4', [
     {'file': 'falcon/responders.py',
      'old': "        raise HTTPMethodNotAllowed(allowed_methods)\n\n    return method_not_allowed\n",
      'new': "        raise HTTPMethodNotAllowed(allowed)\n\n    return method_not_allowed\n"}])
+
+# ------------------------------------------------------------------ wave 9
+# R10 every default responder is (req, resp, **kwargs) (s9-c02-1, s9-c02-2)
+M('c02-options-responder-binds-allowed-as-parameter', 'C02', 'R10', RESP,
+  "    def options_responder(req: Request, resp: Response, **kwargs: Any) -> None:\n",
+  "    def options_responder(\n        req: Request, resp: Response, allowed: str = allowed, **kwargs: Any\n    ) -> None:\n")
+M('c02-405-responder-keyword-only-default', 'C02', 'R10', RESP,
+  "    def method_not_allowed(req: Request, resp: Response, **kwargs: Any) -> NoReturn:\n",
+  "    def method_not_allowed(\n        req: Request, resp: Response, *, allowed_methods: Any = allowed_methods, **kwargs: Any\n    ) -> NoReturn:\n")
+M('c02-bad-request-async-without-kwargs', 'C02', 'R10', RESP,
+  "async def bad_request_async(req: Request, resp: Response, **kwargs: Any) -> NoReturn:\n",
+  "async def bad_request_async(req: AsgiRequest, resp: AsgiResponse) -> NoReturn:\n")
+M('c02-not-found-without-kwargs', 'C02', 'R10', RESP,
+  "def path_not_found(req: Request, resp: Response, **kwargs: Any) -> NoReturn:\n",
+  "def path_not_found(req: Request, resp: Response) -> NoReturn:\n")
+M('c02-options-async-without-kwargs', 'C02', 'R10', RESP,
+  "            req: AsgiRequest, resp: AsgiResponse, **kwargs: Any\n        ) -> None:\n",
+  "            req: AsgiRequest, resp: AsgiResponse\n        ) -> None:\n")
+# negative controls (exit 0): `(req, resp, /, **params)`; `(*args, **kwargs)`
+
+# R11 the 404 / 400 defaults raise their error on every request (s9-c02-3)
+PNF_A = ("async def path_not_found_async(req: Request, resp: Response, **kwargs: Any) -> NoReturn:\n"
+         "    \"\"\"Raise 404 HTTPRouteNotFound error.\"\"\"\n")
+M('c02-not-found-async-400-for-unknown-methods', 'C02', None, RESP, PNF_A,
+  PNF_A + "    if req.method not in ('GET', 'HEAD', 'POST', 'PUT', 'DELETE', 'PATCH', 'OPTIONS'):\n"
+          "        await bad_request_async(req, resp, **kwargs)\n\n")
+M('c02-not-found-async-returns-for-options', 'C02', None, RESP, PNF_A,
+  PNF_A + "    if req.method == 'OPTIONS':\n        return\n\n")
+M('c02-bad-request-404-for-get', 'C02', 'R11', RESP,
+  "    \"\"\"Raise 400 HTTPBadRequest error.\"\"\"\n    raise HTTPBadRequest(title='Bad request', description='Invalid HTTP method')\n\n\nasync",
+  "    \"\"\"Raise 400 HTTPBadRequest error.\"\"\"\n    if req.method == 'GET':\n        raise HTTPRouteNotFound()\n"
+  "    raise HTTPBadRequest(title='Bad request', description='Invalid HTTP method')\n\n\nasync")
+# negative controls (exit 0): `exc = HTTPRouteNotFound(); raise exc`; the async twin delegating to path_not_found(req, resp, **kwargs);
+# a request-dependent branch whose arms both raise HTTPRouteNotFound
+
+# C02 R4 (r4_allow) is also registered as C20 R6 (the preflight copies the same Allow value into
+# Access-Control-Allow-Methods): every R4 operator legitimately fires there too.
+from .mutants import MUTANTS as _ALL   # noqa: E402
+
+for _m in _ALL:
+    if _m['property'] == 'C02' and _m['rule'] == 'R4' and 'C20' not in _m['also']:
+        _m['also'].append('C20')
